@@ -227,6 +227,20 @@ impl Check for C08 {
 
     fn run(&self, c: &WCase) -> CaseResult {
         let log = run_script(c);
+        if std::env::var_os("VERIF_DEBUG").is_some() {
+            for (k, cl) in log.world.clients.iter().enumerate() {
+                eprintln!("client {k} events: {:?}", cl.events.iter().map(|e| (e.1, match &e.2 { CEv::Receive(d) => format!("Receive({})", d.len()), o => format!("{:?}", o) })).collect::<Vec<_>>());
+            }
+            eprintln!("server events: {:?}", log.world.server_events.iter().map(|e| (e.1, match &e.2 { SEv::Receive(a, d) => format!("Receive({a},{})", d.len()), o => format!("{:?}", o) })).collect::<Vec<_>>());
+            let mut last = (0u64, String::new(), 0u32);
+            for r in log.world.wire.iter() {
+                let tag = format!("{}->{} type {} {:?}", r.from.port(), r.to.port(), r.bytes.first().copied().unwrap_or(255), r.fate);
+                if tag == last.1 && r.t_us - last.0 < 200_000 { last.2 += 1; last.0 = r.t_us; continue; }
+                if last.2 > 0 { eprintln!("    ... {} more", last.2); }
+                eprintln!("  t={} {tag} len={}", r.t_us, r.bytes.len());
+                last = (r.t_us, tag, 0);
+            }
+        }
         let mut classes = Vec::new();
         if let Err(v) = check_event_streams(&log) {
             return CaseResult { violation: Some(v), nontrivial: true, classes };
